@@ -282,6 +282,10 @@ func (a *A) writeEvidence(verifDir string, meta propMeta, t0 time.Time, obligati
 	if a.exhaustive {
 		cov["exhaustive"] = true
 	}
+	// distinct cases: rule instances plus distinct (non-trivial) specialisations counted by the engines
+	if dc, ok := a.Extra["distinct_cases"].(int); ok && dc > 0 {
+		cov["distinct_nontrivial"] = distinct + dc
+	}
 	for k, v := range a.Extra {
 		cov[k] = v
 	}
